@@ -225,7 +225,7 @@ Qed.
 Theorem eq_model_py_eq x : forall y, plain x = true -> plain y = true -> eq_model x y = py_eq x y.
 Proof.
   induction x using val_ind'; intros y PX PY; try discriminate.
-  1-6: destruct y; try discriminate; reflexivity.
+  1-7: destruct y; try discriminate; reflexivity.
   - (* tuple *) destruct y; try discriminate; try reflexivity.
     unfold eq_model. simpl. rewrite forall2b_map. simpl in PX, PY. fold (eq_model).
     revert l0 PY. induction H as [|a t Ha Ht IH]; intros [|b t'] PY; simpl; try reflexivity.
